@@ -16,7 +16,10 @@ EXPLANATION = (
     "insert happens only when get found nothing, the clean-up guard is created from is_creator and the shared future wraps "
     "state.try_send(request); (G1) NameServer::send_inner re-enters the loop only under reconnect_budget > 0, reused connection "
     "and connection-closed error, after decrementing the budget (initially 1); every send error marks the connection "
-    "Status::Failed before any other outcome, so the next acquire drops it.")
+    "Status::Failed before any other outcome, so the next acquire drops it; (P1, cont.) the deadline is held by a variable that is assigned "
+    "exactly once; (T2) when the byte stream ends, DnsMultiplexer fails every pending request with the stream's own error or with "
+    "Io(UnexpectedEof|...) - the class is_connection_closed / the pool's fall-through recognise; (N1) argument/field name agreement (connect "
+    "vs request timeout).")
 NOT_DECIDED = "Completion time (needs the per-request timeouts of other layers and a clock); which server wins; fairness."
 ASSUMPTIONS = ["FULL feature configuration", "mutable locals (backoff, busy, servers) appear under their initial-value names in terms"]
 
